@@ -316,6 +316,10 @@ def assume_cands(st, cands, subst_same):
             import lax_model
             lax_model.LIST_ELEM[c[1]] = "hyperedge"
             st.add_bound(("el", c[1], c[2]), c[3])
+        elif k == "count_flags":
+            n = Poly.atom(("ntrue", c[2]))
+            st.add_eq(c[1] - n * c[3] - c[4])
+            st.add_ge(t_len(c[2]) - n)
 
 
 def check_cand(st, c, cur_of):
@@ -344,6 +348,12 @@ def check_cand(st, c, cur_of):
             if not ok:
                 return False
         return True
+    if k == "count_flags":
+        vc, vf = cur_of(c[1]), cur_of(c[2])
+        if not isinstance(vc, VNat) or not isinstance(vf, VSeq):
+            return False
+        n = flag_count(st, vf.t)
+        return n is not None and st.eq(vc.p - n * c[3], c[4])
     v = cur_of(c[1])
     if v is None:
         return False
@@ -403,6 +413,19 @@ def run_loop(I, st, fr, site, roots, run_body, what, extra_values=()):
                 import lax_model
                 if not lax_model.LIST_ELEM.get(fx) and not lax_model.label_of(ox) and fx not in lax_model.LABEL_LEAVES:
                     cands.append(("bound_len", fx, fy))
+
+    # counting with a vector of flags: `if !seen[i] { seen[i] = true; c += 1 }` (or `c -= 1`) keeps c ∓ #true(seen)
+    # constant — the invariant behind `n - c` / `c - 1` not underflowing
+    for (fx, ox) in seqs:
+        n0 = flag_count(st, ox)
+        if is_flag_fill(ox) is None or n0 is None:
+            continue
+        for r, (place, v) in entry.items():
+            for path, leafv in collect_leaves(v):
+                if isinstance(leafv, VNat):
+                    fc = get_path(fresh[r], path)
+                    for sign in (1, -1):
+                        cands.append(("count_flags", fc.p, fx, sign, leafv.p - n0 * sign))
 
     leaf_loc = {}
     for r, (place, v) in entry.items():
@@ -570,6 +593,8 @@ def fmt_cand(c):
         return f"{k}: {show_term(c[1])}.{c[2]} < {show_poly(c[3])}"
     if k == "rec_inv":
         return f"rec_inv: {c[1].ty} at {'.'.join(c[2])}"
+    if k == "count_flags":
+        return f"count_flags: {show_poly(c[1])} {'-' if c[3] > 0 else '+'} #true({show_term(c[2])}) == {show_poly(c[4])}"
     return f"{k}: {show_term(c[1])} ~ {show_term(c[2])}"
 
 
